@@ -478,6 +478,31 @@ def _method(proj, ci, f, ctx, containers, tested_foreign, findings, stats):
                 report(n.lineno, name, "class-level container", unc, "(shared by all instances, filled by `%s`)" % unparse(n)[:60], ("; " + coll) if coll else "")
             else:
                 stats["covered"].append("%s.%s" % (f.qualname, name))
+    # instance-level dictionaries used as caches: `self.X[k] = E` in a method that also looks k up
+    # (`k in self.X`, `self.X.get(k)`): the key must determine what E was computed from
+    looked_up = set()
+    if sn is not None and f.name != "__init__":
+        for n in ast.walk(f.node):
+            if isinstance(n, ast.Compare) and len(n.ops) == 1 and isinstance(n.ops[0], (ast.In, ast.NotIn)):
+                c = n.comparators[0]
+                if isinstance(c, ast.Attribute) and isinstance(c.value, ast.Name) and c.value.id == sn:
+                    looked_up.add(c.attr)
+            if isinstance(n, ast.Call) and isinstance(n.func, ast.Attribute) and n.func.attr in ("get", "setdefault"):
+                c = n.func.value
+                if isinstance(c, ast.Attribute) and isinstance(c.value, ast.Name) and c.value.id == sn:
+                    looked_up.add(c.attr)
+        for t, v, s in _stores_in(body):
+            if isinstance(t, ast.Subscript) and isinstance(t.value, ast.Attribute) and isinstance(t.value.value, ast.Name) and t.value.value.id == sn \
+                    and t.value.attr in looked_up and _class_container(t.value, sn, ci, containers, proj) is None:
+                name = t.value.attr
+                stats["memo_stores"] += 1
+                cov, coll = _key_cover(ctx, t.slice, False)
+                d = {p for p in ctx.deps(v, False) if not (p + ".").startswith("%s.%s." % (sn, name))}
+                unc = {p for p in d if not _covers(cov, p)}
+                if unc:
+                    report(s.lineno, name, "cache dictionary", unc, "(looked up and filled with key `%s`)" % unparse(t.slice)[:60], ("; " + coll) if coll else "")
+                else:
+                    stats["covered"].append("%s.%s" % (f.qualname, name))
     for t, v, s in _stores_in(body):
         # class-level keyed store  X[k] = E   /  foreign attribute store  p.a.X = E
         if isinstance(t, ast.Subscript):
